@@ -14,6 +14,7 @@ import (
 	"net/http"
 	"net/http/httptest"
 	"regexp"
+	"runtime/debug"
 	"sync"
 	"sync/atomic"
 	"testing"
@@ -48,19 +49,34 @@ func TestVerifC17Proxy(t *testing.T) {
 		t.Fatal(err)
 	}
 	gc := route.NewGlobCache(16)
-	px := httptest.NewUnstartedServer(&HTTPProxy{
+	var panics sync.Map // session id -> panic of the proxy's handler chain (other than a passed-on abort)
+	fabio := &HTTPProxy{
 		Config:    config.Proxy{GZIPContentTypes: regexp.MustCompile(verifx.C17ContentTypes)},
 		Transport: &http.Transport{DisableCompression: true, MaxIdleConnsPerHost: 64},
 		Lookup: func(r *http.Request) *route.Target {
 			return tbl.Lookup(r, "", route.Picker["rr"], route.Matcher["prefix"], gc, true)
 		},
-	})
+	}
+	// a crash of the code under test must become a verdict: a panic of the proxy's handler chain is recorded
+	// for the session (the reverse proxy's own abort after an upstream that died mid-body is expected)
+	px := httptest.NewUnstartedServer(http.HandlerFunc(func(w http.ResponseWriter, r *http.Request) {
+		defer func() {
+			if p := recover(); p != nil {
+				id := r.Header.Get("X-C17-Session")
+				if v, ok := sessions.Load(id); !(ok && p == http.ErrAbortHandler && v.(*verifx.C17Plan).H.Aborted) {
+					panics.Store(id, fmt.Sprintf("%v\n%s", p, debug.Stack()))
+				}
+				panic(http.ErrAbortHandler)
+			}
+		}()
+		fabio.ServeHTTP(w, r)
+	}))
 	px.Config.ErrorLog = log.New(io.Discard, "", 0)
 	px.Start()
 	defer px.Close()
 	client := &http.Client{Transport: &http.Transport{DisableCompression: true, MaxIdleConnsPerHost: 64}, Timeout: 90 * time.Second}
 
-	var ran, gz, plain, seq int64
+	var ran, gz, plain, seq, aborted int64
 	var sampleMu sync.Mutex
 	var samples []string
 	jobs := make(chan []byte, 128)
@@ -90,14 +106,27 @@ func TestVerifC17Proxy(t *testing.T) {
 					req.Header.Set("X-C17-Session", id)
 					p.SetRequest(req)
 					resp, err := client.Do(req)
+					var body []byte
+					var rerr error
+					if err == nil {
+						body, rerr = io.ReadAll(resp.Body)
+						resp.Body.Close()
+					}
+					sessions.Delete(id)
+					if v, ok := panics.LoadAndDelete(id); ok {
+						bb := b
+						bb.N, bb.Via = n, "proxy"
+						verifx.Fail(bb, p.Features("proxy", "handler-panic"), "through HTTPProxy: the proxy's handler panicked: %s\n  upstream: %s", v.(string), p.Describe())
+						continue
+					}
+					if p.H.Aborted {
+						atomic.AddInt64(&aborted, 1)
+						continue // the upstream died mid-way: nothing is required of this response
+					}
 					if err != nil {
-						sessions.Delete(id)
 						oracle("request failed before a response arrived: %v (%s)", err, p.Describe())
 						continue
 					}
-					body, rerr := io.ReadAll(resp.Body)
-					resp.Body.Close()
-					sessions.Delete(id)
 					atomic.AddInt64(&ran, 1)
 					faults, mode := p.Judge(resp.StatusCode, resp.Header, body, rerr)
 					if mode == "gzip" {
@@ -130,5 +159,5 @@ func TestVerifC17Proxy(t *testing.T) {
 	if err != nil {
 		t.Fatal(err)
 	}
-	verifx.Summary(map[string]any{"ran": ran, "gzip_mode": gz, "plain_mode": plain, "plumbing": plumbing, "samples": samples})
+	verifx.Summary(map[string]any{"ran": ran, "gzip_mode": gz, "plain_mode": plain, "aborted_responses": aborted, "plumbing": plumbing, "samples": samples})
 }
